@@ -419,7 +419,7 @@ def token_matches(given, tok, maybe_numeric=False):
                 except (ValueError, OverflowError):
                     return False
             return sem_equal(given, held, maybe_numeric)
-        if tok[0] == 'f':       # single precision
+        if tok[0] in 'fs':      # single precision
             held = struct.unpack('>f', struct.pack('>I', int(tok[1:])))[0]
             return isinstance(given, (int, float, bool)) and (held == given or (held != held and given != given)
                                                               or held == struct.unpack('>f', struct.pack('>f', given))[0])
@@ -683,6 +683,28 @@ def numberlike_stream(chk, R, n, schema_rows, stream='number-like'):
     targets = [(st, row) for st in sorted(schema_rows) for row in schema_rows[st]
                if row[2] in ('NumericAttribute', 'DimensionAttribute', 'StatusAttribute') and st in by_type]
     rd, meta = [], []
+    # a user-made attribute without a converter: the representation code is inferred from the values, lists mixing
+    # numpy floats of either width with integers that a single cannot hold included
+    from dliswriter.logical_record.core.attribute import Attribute as _Attr
+    import numpy as np
+    big = [16777217, 2147483647, 4294967295, -123456789, 33554433, 5, 0, -1, 255, 65536]
+    for i in range(max(n // 6, 20)):
+        k = R.choice([2, 3, 4])
+        vals = [R.choice([np.float32(0.5), np.float32(3.0), np.float64(2.25), 1.5, R.choice(big), R.choice(big),
+                          np.int32(R.choice(big[:2] + big[5:])), np.uint8(7)]) for _ in range(k)]
+        a = _Attr('values', multivalued=True)
+        s0, e0 = call(setattr, a, 'value', vals)
+        case = {'attribute': "Attribute('values', multivalued=True) (no converter)", 'call': f'attr.value = {vals!r}',
+                'types': [type(v).__name__ for v in vals]}
+        chk.case(stream, nontrivial_key=(stream, 'generic', i), sample={'given': repr(vals)[:80], 'outcome': s0 if s0 == 'ok' else e0})
+        chk.count(f'{stream}:generic:{s0 if s0 == "ok" else e0}')
+        if s0 != 'ok':
+            continue
+        sb, b = call(a.get_as_bytes)
+        chk.count(f'{stream}:generic-bytes:{sb if sb == "ok" else b}')
+        if sb == 'ok' and b:
+            rd.append(f"peflrv {synthetic_set(b, 'VALUES').hex()}")
+            meta.append((case, vals, b))
     for i in range(n):
         st, row = R.choice(targets)
         pyname, label = row[1], row[0]
@@ -745,9 +767,12 @@ def numberlike_finish(chk, model, rd, meta, stream='number-like'):
             eg = _exact(g)
             if t[0] == 'd':
                 dec = Fraction(struct.unpack('>d', struct.pack('>Q', int(t[1:])))[0])
-            elif t[0] == 'f':
+            elif t[0] in 'fs':
+                # single precision: exact for what a single holds; anything else would be ROUNDED, which an attribute whose
+                # code is inferred from its values must not do to them (the inferred code has to hold every value)
                 dec = Fraction(struct.unpack('>f', struct.pack('>I', int(t[1:])))[0])
-                eg = Fraction(struct.unpack('>f', struct.pack('>f', float(eg)))[0])
+                if 'no converter' not in str(case.get('attribute', '')):
+                    eg = Fraction(struct.unpack('>f', struct.pack('>f', float(eg)))[0])   # a declared FSINGL: the nearest single
             elif t[0] == 'i':
                 dec = Fraction(int(t[1:]))
             else:
